@@ -92,6 +92,10 @@ def _unconditional(node: ast.AST):
         return
     if isinstance(node, (ast.ListComp, ast.SetComp, ast.GeneratorExp, ast.DictComp)):
         yield from _unconditional(node.generators[0].iter)
+        # an eager comprehension without a filter evaluates its element for EVERY item (a generator expression may be abandoned)
+        if not isinstance(node, ast.GeneratorExp) and len(node.generators) == 1 and not node.generators[0].ifs:
+            for part in ([node.key, node.value] if isinstance(node, ast.DictComp) else [node.elt]):
+                yield from _unconditional(part)
         return
     if isinstance(node, ast.Lambda):
         return
@@ -120,6 +124,11 @@ def _call_nodes(ctx: Ctx, fn: FuncInfo, target: str) -> set[int]:
                 for c in callees:
                     if c.qualname == target or target in cg.reachable(c.qualname):
                         out.add(n)
+    # a loop that makes the call for every item counts as a whole: its zero-iteration path has nothing to validate
+    for lp in cfg.nodes(lambda s_: isinstance(s_, (ast.For, ast.AsyncFor))):
+        body = cfg.stmt[lp].body
+        if body and any(cfg.node(b) in out for b in body[:1] if not isinstance(b, (ast.FunctionDef, ast.ClassDef))):
+            out.add(lp)
     return out
 
 
@@ -241,8 +250,25 @@ def rule_wired(ctx: Ctx) -> None:  # noqa: C901, PLR0912, PLR0915
     ctx.add("1-wired", run_m, run_m.node, ok, "run() topologically sorts the (possibly mutated) graph before evaluating anything: cycles raise first" if ok else
             "nothing on the way from run() to _run() certainly sorts the graph topologically: a cycle introduced through a member function is only noticed after user functions ran (RecursionError)", key="run-detects-cycles")
     tg = P.func(f"{PL}.topological_generations")
-    ok = "nx.topological_generations(graph)" in norm(tg.node) and "list(nx.topological_generations(graph))" in norm(tg.node)
-    ctx.add("1-wired", tg, tg.node, ok, "generations are materialised eagerly (networkx raises on a cycle)" if ok else "topological_generations no longer consumes nx.topological_generations eagerly: cycles surface later", key="cycle-eager")
+    # networkx raises on a cycle while the generator is consumed: it must be consumed completely inside the property
+    par_t = {id(c): p_ for p_ in ast.walk(tg.node) for c in ast.iter_child_nodes(p_)}
+    gens = [c for c in ast.walk(tg.node) if isinstance(c, ast.Call) and dotted(c.func).endswith("topological_generations") and not norm(c.func).startswith("self.")]
+    verdicts = []
+    for c in gens:
+        up = par_t.get(id(c))
+        while isinstance(up, ast.Call) and dotted(up.func) in ("enumerate", "iter"):
+            c, up = up, par_t.get(id(up))
+        if isinstance(up, ast.Call) and dotted(up.func) in ("list", "tuple", "sorted", "len") and c in up.args:
+            verdicts.append(True)
+        elif isinstance(up, (ast.For, ast.AsyncFor)) and up.iter is c:
+            verdicts.append(not any(isinstance(x, (ast.Break, ast.Return)) for b_ in up.body for x in ast.walk(b_)))
+        elif isinstance(up, (ast.Return, ast.GeneratorExp, ast.comprehension)) and not isinstance(par_t.get(id(up)), (ast.ListComp, ast.SetComp, ast.DictComp)):
+            verdicts.append(False)
+        else:
+            verdicts.append(None)
+    ctx.tri("1-wired", tg, gens[0] if gens else tg.node, bool(verdicts) and all(v is True for v in verdicts), any(v is False for v in verdicts),
+            "generations are consumed completely inside the property (networkx raises on a cycle)", "topological_generations hands the networkx generator on without consuming it: cycles surface later, after user functions may have run",
+            "consumption of nx.topological_generations not recognised", key="cycle-eager")
 
 
 
